@@ -35,7 +35,7 @@ CHECKS = {
    note="Trusted: Sanitize on the same tree as the reference for non-blank inputs; cli_policies.go transcription; sampled over cases.",
    tech="deterministic simulation: seeded chunk/EOF schedules over simulated io.Reader/io.Writer and CLI stdin, differential oracle, plan minimisation"),
  "C13": dict(level="exploration", ref="DESIGN.md §3.1",
-   text="2-6 caller tasks share one finished policy; a seeded baton scheduler (uniform with stickiness, or PCT) serialises them at every Read, Write, user callback, map-iteration point and - through instrumentation of the scratch copy - every sync/atomic use inside the library (never inside a lock-holding region); map order itself is a simulator decision, also during construction. The baton uses raw syscalls that the Go race runtime cannot see, so ThreadSanitizer reports any conflicting access between two calls on a serialised, replayable execution; every operation's result is compared with the same operation run alone on a fresh policy under canonical map order, returned values are re-read after all calls finished, the shared policy's later behaviour is compared with a fresh policy's, and sampled plans are re-executed alone in a pristine process (results must not depend on earlier calls anywhere in the process).",
+   text="2-6 caller tasks share one finished policy; a seeded baton scheduler (uniform with stickiness, or PCT) serialises them at every Read, Write, user callback, map-iteration point and - through instrumentation of the scratch copy - every sync/atomic use inside the library (never inside a lock-holding region); map order itself is a simulator decision, also during construction. The baton uses raw syscalls that the Go race runtime cannot see, so ThreadSanitizer reports any conflicting access between two calls on a serialised, replayable execution; every operation's result is compared with the same operation run alone on a fresh policy under canonical map order, returned values are re-read after all calls finished, the shared policy's later behaviour is compared with a fresh policy's, and sampled plans are re-executed alone in a pristine process (results must not depend on earlier calls anywhere in the process). Injected faults: failing/short destination writes and failing sources in one seeded task, and (6 % of plans) a caller-supplied URL policy that panics on one host; calls that stop returning after such a fault are reported (call-never-returns) when each of them returns alone on a fresh policy.",
    note="Trusted: Go race runtime; instrumentation of range-over-map headers and sync calls; raw syscalls stay un-instrumented (canary checked in every process). sync.Pool edges inside regexp can mask a conflicting pair in one execution (measured, DESIGN 10.2), so a data-race class gets a few fresh-process attempts of the identical schedule. Sampled schedules, not exhaustive.",
    tech="deterministic simulation: seeded baton scheduler over real goroutines + race runtime as exact per-execution oracle, controlled map order, differential reference"),
  "C17": dict(level="exploration", ref="DESIGN.md §3.4",
